@@ -5,7 +5,7 @@ import Amshan.Lemmas.AidonRT
 namespace Amshan.C07
 open Amshan.Gen Amshan.Cosem Amshan.ListSpec
 
-theorem name_pins : field_METER_MANUFACTURER = "meter_manufacturer" ∧ aidonNormalizeStrings = ["Aidon", "datetime"] := by
+theorem name_pins : field_METER_MANUFACTURER = "meter_manufacturer" := by
   decide
 
 /-- **C07 (bare notification body).** For every list of well-formed elements — any OBIS codes in any
